@@ -83,6 +83,14 @@ pub fn cancel_history_at(seed: u64, polls: Option<u64>, thorough: bool, boundari
             points.sort();
             points.dedup();
             for (k, n) in points.iter().enumerate() {
+                if k % 4 == 2 {
+                    // "retrying without the fault succeeds" with the very same builder value: the faulty attempt is rolled
+                    // back inside (nested transaction), the event is the second attempt's
+                    ops.push(Op::Build { idx, o: BuildOpts { cancel_at: Some(*n), retry_same_builder: true, ..base.clone() } });
+                    ops.push(Op::Search { idx, seed: rng.gen() });
+                    ops.push(Op::Abort);
+                    continue;
+                }
                 ops.push(Op::Build { idx, o: BuildOpts { cancel_at: Some(*n), ..base.clone() } });
                 ops.push(Op::Abort);
                 if k % 10 == 9 {
